@@ -251,9 +251,13 @@ Proof. split; [apply csr_wf_b_sound; reflexivity | eexists; vm_compute; reflexiv
 (** optimize_core on the triangle {0,1,2} plus the edge 2 - 3 (weights normalised to total 1):
     two passes, labels [1,1,3,3], increase 9/32 = 0.28125 — the value the compiled kernel returns *)
 Example optimize_core_example :
-  exists r, optimize_core 5 [0; 1; 2; 3] [1; 2; 0; 2; 0; 1; 3; 2] [0; 2; 4; 7; 8]
+  match optimize_core 5 [0; 1; 2; 3] [1; 2; 0; 2; 0; 1; 3; 2] [0; 2; 4; 7; 8]
               [1 # 8; 1 # 8; 1 # 8; 1 # 8; 1 # 8; 1 # 8; 1 # 8; 1 # 8]%Q
               [2 # 8; 2 # 8; 3 # 8; 1 # 8]%Q [2 # 8; 2 # 8; 3 # 8; 1 # 8]%Q
               [2 # 8; 2 # 8; 3 # 8; 1 # 8]%Q [2 # 8; 2 # 8; 3 # 8; 1 # 8]%Q
-              [0; 0; 0; 0]%Q [0; 0; 0; 0]%Q 1%Q (1 # 1000)%Q = KOk r /\ fst (fst r) = [1; 1; 3; 3] /\ Qeq_bool (snd (fst r)) (9 # 32)%Q = true /\ snd r = 2.
-Proof. eexists. repeat split; vm_compute; reflexivity. Qed.
+              [0; 0; 0; 0]%Q [0; 0; 0; 0]%Q 1%Q (1 # 1000)%Q with
+  | KOk (labels, increase, passes) =>
+      labels = [1; 1; 3; 3] /\ Qeq_bool increase (9 # 32)%Q = true /\ passes = 2
+  | _ => False
+  end.
+Proof. vm_compute. auto. Qed.
